@@ -206,6 +206,9 @@ func Run(spec RunSpec) *Result {
 	res.LoadS = time.Since(t0).Seconds()
 	bin := spec.Solver
 	if bin == "" {
+		bin = os.Getenv("VERIF_SOLVER") // cross-checking the encoding with another solver
+	}
+	if bin == "" {
 		bin = "z3"
 	}
 	tmo := spec.TimeoutMs
@@ -214,7 +217,7 @@ func Run(spec RunSpec) *Result {
 	}
 	var sv *Solver
 	if strings.Contains(bin, "cvc5") {
-		sv = NewSolver(tmo, bin, "--incremental", "--lang=smt2", fmt.Sprintf("--tlimit-per=%d", tmo))
+		sv = NewSolver(tmo, bin, "--incremental", "--produce-models", "--lang=smt2", fmt.Sprintf("--tlimit-per=%d", tmo))
 	} else {
 		sv = NewSolver(tmo, bin, "-in")
 	}
